@@ -11,6 +11,9 @@ set_option linter.unusedVariables false
 def rank (s : St) : Nat :=
   match s.pc with
   | .exited _ | .startFailed => 0
+  | .failReturn => 1
+  | .failReport => 2
+  | .failRelease => 3
   | .finRelease _ => 1
   | .finPostStop _ => 2
   | .finDropRx _ => 3
@@ -21,7 +24,7 @@ def rank (s : St) : Nat :=
   | .handling _ _ => 8
   | .postStart => 9
   | .preStarted => 10
-  | .init => 11
+  | .init => 12
 
 def measure (s : St) : Nat := 3 * s.queue.length + rank s
 
@@ -74,6 +77,9 @@ theorem batch_decreases (sc : Script) (s s' : St) (hr : InvR s) (hne : nextEvent
     by_cases h1 : sc.postStart = true <;> simp [run, step, hpc, h1, St.obs] at h <;> subst h <;>
       simp [measure, rank, hpc]
   | startFailed => simp [hpc] at hne
+  | failRelease => simp [hpc, run, step] at h; subst h; simp [measure, rank, hpc]
+  | failReport => simp [hpc, run, step] at h; subst h; simp [measure, rank, hpc]
+  | failReturn => simp [hpc, run, step] at h; subst h; simp [measure, rank, hpc]
   | exited e => simp [hpc] at hne
   | finBegin e => simp [hpc, run, step] at h; subst h; simp [measure, rank, hpc]
   | finPreStop e => simp [hpc, run, step, St.obs] at h; subst h; simp [measure, rank, hpc]
